@@ -923,7 +923,7 @@ def run(ctx: Ctx) -> Result:
     if ctx.focus is not None:
         cases.append(ctx.focus)
     quick = ctx.tier == "quick"
-    n = ctx.n(700, 6000)
+    n = ctx.n(500, 6000)
     for k in range(n):
         if k % 5 == 4:
             cases.append(gen_blocked(ctx.rng))
